@@ -1131,12 +1131,16 @@ fn c10(rng: &mut Rng, idx: usize) -> Case {
     let (mut f, _) = gen_facts(rng, &DagOpts { max_terms, with_roots: wr, max_recs: 8 });
     if idx % 2 == 1 {
         // the smallest and the largest id of the id space as terms (with a link between them)
+        let mut fresh = 0;
         for id in [0u32, 9_999_999] {
             if !f.terms.iter().any(|t| t.0 == id) {
                 f.terms.push((id, gen_name(rng)));
+                fresh += 1;
             }
         }
-        if !f.edges.contains(&(9_999_999, 0)) && !f.edges.contains(&(0, 9_999_999)) {
+        // the link only between two NEW terms (an existing one may already be above or below the
+        // other: no cycles)
+        if fresh == 2 {
             f.edges.push((9_999_999, 0));
         }
         c.stat("extreme_ids_as_terms", 1);
